@@ -13,6 +13,8 @@ TraceSql == Range(Meta.sql)
 TraceRetention == Meta.retention
 TraceLookback == Meta.lookback
 TraceMaxPast == Meta.maxpast
+TraceOOT == IF "oot" \in DOMAIN Meta THEN Meta.oot ELSE 100
+TraceMFD == IF "mfd" \in DOMAIN Meta THEN Meta.mfd ELSE 1000
 TraceDev == Range(Meta.dev)
 
 VARIABLE l
@@ -68,7 +70,8 @@ PostOK(clx, evx, gix, procx, msgsx, c, g, p) ==
 
 Post1 == PostOK(cl', ev', ginfo', proc', msgs', R.c, R.g, R.post)
 
-NM(name) == [name |-> IF name # "" THEN name ELSE "unused" \o ToString(l), ts |-> R.ts, rank |-> R.rank, now |-> R.now]
+NM(name) == [name |-> IF name # "" THEN name ELSE "unused" \o ToString(l), ts |-> R.ts, rank |-> R.rank, now |-> R.now,
+             t |-> IF "t" \in DOMAIN R THEN R.t ELSE 0]
 
 ResOK == V("res") => Chk("res", R.c, hist'.lastRes = R.res, hist'.lastRes)
 
@@ -132,9 +135,19 @@ TWelcome ==
     /\ R.op = "Welcome"
     /\ CASE R.what = "process" -> ProcessWelcome(R.c, R.w, R.x) /\ (V("res") => Chk("res", R.c, hist'.lastRes = R.res, hist'.lastRes))
          [] R.what = "accept"  -> IF R.res = "Ok" THEN AcceptWelcome(R.c, R.w)
-                                  ELSE ~ENABLED AcceptWelcome(R.c, R.w) /\ UNCHANGED vars
+                                  ELSE /\ ~ENABLED AcceptWelcome(R.c, R.w)
+                                       /\ IF ENABLED WelcomeCallFails(R.c, R.w) THEN WelcomeCallFails(R.c, R.w) /\ R.res = "Err"
+                                          ELSE UNCHANGED vars
          [] R.what = "decline" -> IF R.res = "Ok" THEN DeclineWelcome(R.c, R.w)
-                                  ELSE ~ENABLED DeclineWelcome(R.c, R.w) /\ UNCHANGED vars
+                                  ELSE /\ ~ENABLED DeclineWelcome(R.c, R.w)
+                                       /\ IF ENABLED WelcomeCallFails(R.c, R.w) THEN WelcomeCallFails(R.c, R.w) /\ R.res = "Err"
+                                          ELSE UNCHANGED vars
+    /\ Post1
+    /\ ("posts" \in DOMAIN R) => \A i \in DOMAIN R.posts : PostOK(cl', ev', ginfo', proc', msgs', R.c, R.posts[i].g, R.posts[i].post)
+
+TDropKP ==
+    /\ R.op = "DropKP"
+    /\ IF R.res = "Ok" THEN DropKeyPackage(R.c, R.w) ELSE UNCHANGED vars
     /\ Post1
 
 \* a no-op line that only compares projections (end of a directed scenario)
@@ -170,7 +183,7 @@ TJunk ==
 
 TRestart ==
     /\ R.op = "Restart"
-    /\ Restart(R.c)
+    /\ IF "ttl" \in DOMAIN R THEN RestartT(R.c, R.ttl, R.now) ELSE Restart(R.c)
     /\ \A i \in DOMAIN R.posts : PostOK(cl', ev', ginfo', proc', msgs', R.c, R.posts[i].g, R.posts[i].post)
 
 TQuiesce ==
@@ -183,7 +196,7 @@ TraceInit == Init /\ l = 2
 TraceNext ==
     /\ l <= Len(Rec)
     /\ l' = l + 1
-    /\ \/ TMeta \/ TCreate \/ TCommit \/ TMerge \/ TClear \/ TSend \/ TLeave \/ TDeliver \/ TQuiesce \/ TWelcome \/ TRestart \/ TSnapshot \/ TJunk \/ TForge \/ TRaw
+    /\ \/ TMeta \/ TCreate \/ TCommit \/ TMerge \/ TClear \/ TSend \/ TLeave \/ TDeliver \/ TQuiesce \/ TWelcome \/ TRestart \/ TSnapshot \/ TJunk \/ TForge \/ TRaw \/ TDropKP
 
 ObsSame(c) == ObsOf(c)' = ObsOf(c)
 \* property invariants, evaluated by TLC in every state of every real trace
@@ -227,6 +240,9 @@ ActC02 == [][C02_ContentImmutable \/ R.op = "Reset"]_tvars
 \* (bound variables are rigid: priming ObsOf(R.c) would read the *next* trace line)
 ActC07 == [][\A c \in Clients : (R.op = "Deliver" /\ R.c = c /\ R.e \in DOMAIN ev /\ Handled(c, R.e)) => ObsSame(c)]_tvars
 InvC20 == C20_Bounded
+\* start-up leaves no snapshot older than the configured time-to-live (ages by the driver's own clock, not the store's stamps)
+ActC20 == [][(R.op = "Restart" /\ "ttl" \in DOMAIN R)
+              => \A g \in Groups : \A s \in cl'[R.c][g].stored : ~Expired(s, R.ttl, R.now)]_tvars
 InvSecrets == SecretsMatch
 
 \* development aid: STOPAT=<line> makes TLC print the state reached just before that line
